@@ -4,6 +4,7 @@
   theorems distinguish them (mutant witnesses).
 -/
 import TradingVerif.Model.Broker
+import TradingVerif.Model.Env
 namespace TV.Legacy
 open TV
 
@@ -39,6 +40,24 @@ def valueOfLiq (w : World α) (b : Broker α) (k : Key) : Option α :=
   match (if 0 ≤ q then (b.ex.books k).bid else (b.ex.books k).ask) with
   | none => none
   | some p => some (s.cashReq * q * p + b.margin k)
+
+end
+section
+variable {α : Type} [Add α] [Sub α] [Mul α] [Div α] [Neg α] [LT α] [LE α]
+  [DecidableLT α] [DecidableLE α] [DecidableEq α] [OfNat α 0] [OfNat α 1] [OfNat α 2]
+  [IntCast α] [HasTrunc α]
+
+/-- F9: `step` did not re-assert the environment's own time into the process-wide contract clock -/
+def stepPre (s : EnvState α) (a : Action α) : EnvState α × Action α :=
+  let q := a :: s.queue
+  (processLatent { s with queue := q.dropLast }, q.getLast?.getD a)
+
+def envStep (pw : α → α → α) (lg : α → α) (cfg : EnvCfg α) (s : EnvState α) (a : Action α) :
+    EnvState α × Except Err (StepOut α) :=
+  if s.done then (s, .error .episodeOver) else
+  match stepExec pw cfg (stepPre s a).1 (stepPre s a).2 with
+  | (s2, .error e) => (s2, .error e)
+  | (s2, .ok traded) => stepFinish lg cfg s2 traded
 
 end
 end TV.Legacy
